@@ -310,9 +310,10 @@ Proof.
     + unfold sym_type_word. rewrite Ety. cbn [orb andb negb] in Hop. rewrite Hop. cbn. rewrite !orb_true_r. reflexivity.
 Qed.
 
-(* outside the naming rules the two tests differ: "Trend:Speed" contains ":S" but is not of the form
-   Name:Kind with Name non-empty ... it IS (Name = Trend, Kind = Speed); "A:B:Ix" is not (B is not
-   a slot number) yet contains ":I": the code keeps it, the reference hides it *)
+(* outside the naming rules the two tests differ: "A:B:Ix" is not of the form Name:slot:Kind (B is
+   not a slot number) yet contains ":I": the code keeps it, the reference hides it.  (Likewise the
+   real driver keeps a symbol named "Trend:Speed" because it contains ":S".)  Logix tag names are
+   identifiers, so such symbols do not occur in a project; hence a hypothesis, not a finding. *)
 Example filter_differs_outside_rules :
   let g := mkTag [65; 58; 66; 58; 73; 120] 1 ScCtrl (BAtom C_DINT) [] 0 false 0 0 0 0 in
   colon_regular (g_name g) = false
